@@ -107,7 +107,9 @@ func vp_C09_reuse() {
 	_ = a.allowed(e1)
 	// state resolution clears the provider and refills it with the state the next event needs; the refill may lack
 	// events the previous one had (join rules, power levels) or hold them again
-	refill := vpChoice("refill", "same-provider-untouched", "cleared-same", "cleared-no-join-rules", "cleared-no-power-levels")
+	// ... or hold in their place other events whose content does not parse (a power level given as a list, a join
+	// rule given as a number): the reused checker must then judge like a fresh one, not by what it cached before
+	refill := vpChoice("refill", "same-provider-untouched", "cleared-same", "cleared-no-join-rules", "cleared-no-power-levels", "cleared-malformed-join-rules", "cleared-malformed-power-levels")
 	if refill != "same-provider-untouched" {
 		auth.Clear()
 		for _, ev := range s.events {
@@ -116,6 +118,12 @@ func vp_C09_reuse() {
 			}
 			if refill == "cleared-no-power-levels" && ev.Type() == spec.MRoomPowerLevels {
 				continue
+			}
+			if refill == "cleared-malformed-join-rules" && ev.Type() == spec.MRoomJoinRules {
+				ev = vpMkEvent(ver, "$jr2:x", s.room, vpAlice, spec.MRoomJoinRules, vpStrPtr(""), vpJObj("join_rule", int64(7)))
+			}
+			if refill == "cleared-malformed-power-levels" && ev.Type() == spec.MRoomPowerLevels {
+				ev = vpMkEvent(ver, "$pl2:x", s.room, vpAlice, spec.MRoomPowerLevels, vpStrPtr(""), vpJObj("events_default", vpJArr(int64(0)), "users", vpJObj(vpBob, int64(0))))
 			}
 			_ = auth.AddEvent(ev)
 		}
